@@ -65,29 +65,40 @@ class LineCov:
 UNREACHABLE = [
     'if lim and n > lim',      # get_surfaces is always called with lim=None
     'break',
-    # transformation(): an empty transformation never reaches it from a deck,
-    # and quadrics (SQ / GQ) are not in C16's surface pool (C02 / C04 own them)
+    # transformation(): an empty transformation never reaches it from a deck
     'return surface',
-    'surface = SurfaceMCNP(surface.boundary_cond, MS.GQ,',
-    'surface.param_surface,',
-    'sq_to_gq(surface.compl_param), surface.idorigin)',
-    'frame = tuple(surface.param_surface)',
-    'params = transformation_quad(surface.compl_param, trpl)',
 ]
 
 
 def anchored_functions():
-    from MIP.geom import surfaces
-    from t4_geom_convert.Kernel.BoundaryCondition.\
-        CConversionBoundaryCondition import CConversionBoundaryCondition as B
-    from t4_geom_convert.Kernel.FileHandlers.Writer import WriteT4BoundCond
-    from t4_geom_convert.Kernel.Surface import Duplicates
-    from t4_geom_convert.Kernel.Surface.CollectionDict import CollectionDict
-    from t4_geom_convert.Kernel.Transformation import Transformation
-    from t4_geom_convert.Kernel.Volume import ConstructVolumeT4
-    return [surfaces.get_surfaces, B.recuperateBoundaryCondition,
-            B.conversionBoundCond, WriteT4BoundCond.writeT4BoundCond,
-            Duplicates.remove_duplicate_surfaces, Duplicates.renumber_surfaces,
-            CollectionDict.number_items, Transformation.transformation,
-            ConstructVolumeT4.extract_tr_surf_ids,
-            ConstructVolumeT4.remove_unused_volumes]
+    '''(functions found, names not found).  Never raises: a function that a
+    rewrite renamed or moved is skipped and reported.'''
+    import importlib
+    wanted = [
+        ('MIP.geom.surfaces', 'get_surfaces'),
+        ('t4_geom_convert.Kernel.BoundaryCondition.CConversionBoundaryCondition',
+         'CConversionBoundaryCondition.recuperateBoundaryCondition'),
+        ('t4_geom_convert.Kernel.BoundaryCondition.CConversionBoundaryCondition',
+         'CConversionBoundaryCondition.conversionBoundCond'),
+        ('t4_geom_convert.Kernel.FileHandlers.Writer.WriteT4BoundCond',
+         'writeT4BoundCond'),
+        ('t4_geom_convert.Kernel.Surface.Duplicates', 'remove_duplicate_surfaces'),
+        ('t4_geom_convert.Kernel.Surface.Duplicates', 'renumber_surfaces'),
+        ('t4_geom_convert.Kernel.Surface.CollectionDict',
+         'CollectionDict.number_items'),
+        ('t4_geom_convert.Kernel.Transformation.Transformation', 'transformation'),
+        ('t4_geom_convert.Kernel.Volume.ConstructVolumeT4', 'extract_tr_surf_ids'),
+        ('t4_geom_convert.Kernel.Volume.ConstructVolumeT4',
+         'remove_unused_volumes'),
+    ]
+    found, absent = [], []
+    for mod, path in wanted:
+        try:
+            obj = importlib.import_module(mod)
+            for part in path.split('.'):
+                obj = getattr(obj, part)
+            getattr(obj, '__func__', obj).__code__
+            found.append(obj)
+        except Exception:       # pylint: disable=broad-except
+            absent.append(f'{mod.split(".")[-1]}.{path}')
+    return found, absent
